@@ -243,6 +243,7 @@ class Check:
         self.notes = []
         self.known = load_known()
         self.exhaustive = False
+        self.deferred = []        # broken build stages, reported at the end (with or without a failing input)
 
     def build(self, props=None):
         try:
@@ -253,6 +254,9 @@ class Check:
                                    'broken': 'the development does not build against the current /repo tree (%s)' % e.stage},
                                   no_input=True)
             return False
+        for stage, detail in getattr(self.b, 'broken', []):
+            self.deferred.append({'kind': 'build-failure', 'stage': stage, 'detail': detail[-3000:],
+                                  'broken': 'the development does not build against the current /repo tree (%s); the check went on with the committed tables to look for a failing input' % stage})
         if self.b.forbidden:
             self.report_violation({'kind': 'forbidden-vernacular', 'detail': self.b.forbidden}, no_input=True)
             return False
@@ -396,6 +400,12 @@ class Check:
         return res
 
     def finish(self, category='proof', extra_cov=None, assumptions=None):
+        for payload in self.deferred:
+            found = [p for p, sfx in self.violations if not sfx]
+            if found:
+                payload = dict(payload, failing_inputs=found)
+            self.report_violation(payload, no_input=not found)
+        self.deferred = []
         chk = self.coqchk()
         if chk is not None:
             extra_cov = dict(extra_cov or {}, coqchk=chk)
